@@ -1,7 +1,12 @@
 """Battery for C16: calls every public query / taxonomy / similarity / IC / validate /
 dump / export function on an existing database and prints a canonical transcript.
 
-    python -m wnv.battery <data_dir> <source.xml> <scratch_dir>
+    python -m wnv.battery <data_dir> <source.xml> <scratch_dir> <json list of configurations>
+
+A configuration is ['files'] (export / validate / dump) or [lexicon, expand] for
+wn.Wordnet(lexicon, expand=expand).  The configurations are visited in the given order (first
+pass) and in reverse order (second pass): a result that depends on which read-only calls came
+before (a process-wide cache keyed too coarsely, say) differs between passes or processes.
 
 Lists and dict items appear in the order wn returned them; floats by repr; written files
 in full (hex digest + text).  Set-typed results (Morphy) are sorted: a set has no order.
@@ -36,7 +41,8 @@ def _ids(xs):
     return [getattr(x, 'id', str(x)) for x in xs]
 
 
-def transcript(xml: Path, scratch: Path, tag: str) -> list:
+def transcript(xml: Path, scratch: Path, tag: str, config) -> list:
+    """Transcript of one configuration: ['files'] or [lexicon specifier | None, expand | None]."""
     import wn
     import wn.ic
     import wn.lmf
@@ -46,10 +52,34 @@ def transcript(xml: Path, scratch: Path, tag: str) -> list:
     import wn.validate
     T: list = []
     put = T.append
-    for lex in wn.lexicons():
-        spec = lex.specifier()
-        put(['lexicon', spec, lex.requires() and list(lex.requires()), _ids(lex.extensions())])
-        w = wn.Wordnet(spec)
+    if config == ['files']:
+        for lex in wn.lexicons():
+            for v in ('1.0', '1.1', '1.3'):
+                if v == '1.0' and lex.extends() is not None:
+                    continue
+                out = scratch / f'{tag}-{lex.id}-{v}.xml'
+                wn.export([lex], out, version=v)
+                data = out.read_bytes()
+                put(['export', lex.specifier(), v, hashlib.sha256(data).hexdigest(),
+                     data.decode('utf-8')])
+        res = wn.lmf.load(xml, progress_handler=None)
+        for lx in res['lexicons']:
+            rep = wn.validate.validate(lx, progress_handler=None)
+            put(['validate', lx['id'],
+                 [[code, list(d['items'].items())] for code, d in rep.items()]])
+        out = scratch / f'{tag}-dump.xml'
+        wn.lmf.dump(res, out)
+        put(['dump', out.read_bytes().decode('utf-8')])
+        return T
+    lexicon, expand = config
+    import warnings
+    with warnings.catch_warnings():
+        warnings.simplefilter('ignore')
+        w = wn.Wordnet(lexicon, expand=expand)
+    if True:
+        spec = str(config)
+        put(['lexicons', [lx.specifier() for lx in w.lexicons()],
+             [lx.specifier() for lx in w.expanded_lexicons()]])
         put(['words', _ids(w.words()), 'senses', _ids(w.senses()), 'synsets', _ids(w.synsets())])
         put(['ilis', [[i.id, i.status] for i in w.ilis()]])
         for wd in w.words():
@@ -92,25 +122,16 @@ def transcript(xml: Path, scratch: Path, tag: str) -> list:
             for q in (str(wd.lemma()), str(wd.lemma()) + 's', str(wd.lemma()) + 'es'):
                 put(['morphy', q, {str(k): sorted(v) for k, v in m0(q).items()},
                      {str(k): sorted(v) for k, v in m1(q).items()}])
-        lw = wn.Wordnet(spec, lemmatizer=m1)
+        with warnings.catch_warnings():
+            warnings.simplefilter('ignore')
+            lw = wn.Wordnet(lexicon, expand=expand, lemmatizer=m1)
         put(['lemmatized', [_ids(lw.words(str(wd.lemma()) + 's')) for wd in w.words()[:6]]])
-        for v in ('1.0', '1.1', '1.3'):
-            out = scratch / f'{tag}-{lex.id}-{v}.xml'
-            wn.export([lex], out, version=v)
-            data = out.read_bytes()
-            put(['export', v, hashlib.sha256(data).hexdigest(), data.decode('utf-8')])
-    res = wn.lmf.load(xml, progress_handler=None)
-    for lx in res['lexicons']:
-        rep = wn.validate.validate(lx, progress_handler=None)
-        put(['validate', lx['id'], [[code, list(d['items'].items())] for code, d in rep.items()]])
-    out = scratch / f'{tag}-dump.xml'
-    wn.lmf.dump(res, out)
-    put(['dump', out.read_bytes().decode('utf-8')])
     return T
 
 
 def main(argv):
     datadir, xml, scratch = Path(argv[1]), Path(argv[2]), Path(argv[3])
+    order = json.loads(argv[4])
     sys.path.insert(0, str(Path(__file__).resolve().parent.parent))
     from wnv import dumps, env
     wn = env.import_wn()
@@ -118,7 +139,7 @@ def main(argv):
     dbfile = datadir / 'wn.db'
     before = hashlib.sha256(json.dumps(dumps.raw_dump(dbfile), sort_keys=True,
                                        default=str).encode()).hexdigest()
-    t1 = transcript(xml, scratch, 'a')
+    t1 = {json.dumps(c): transcript(xml, scratch, 'a', c) for c in order}
     # burst of read-only calls
     for lex in wn.lexicons():
         w = wn.Wordnet(lex.specifier())
@@ -126,7 +147,7 @@ def main(argv):
             ss.hypernym_paths(simulate_root=True)
             ss.relations()
         len(w.words()), len(w.senses())
-    t2 = transcript(xml, scratch, 'b')
+    t2 = {json.dumps(c): transcript(xml, scratch, 'b', c) for c in reversed(order)}
     env.close_pool()
     after = hashlib.sha256(json.dumps(dumps.raw_dump(dbfile), sort_keys=True,
                                       default=str).encode()).hexdigest()
